@@ -97,6 +97,39 @@ example : timeToStrWith strftimeFormat 951868799 = .ok "20000229T235959".toList 
     strToTimeWith strptimeFormat epoch "20000229t235959".toList = .ok 951868799 := by
   decide +kernel
 
+/-! ## no time stamp is written outside the test of the switch
+
+`Generated/Setters.lean` records, for every method and setter of every class of nixio/*.py, the
+touch state in which each path of its body ends.  `always` = the path ran `self.force_updated_at()`
+as a statement of its own, not under `if self.file.auto_update_timestamps:` — the object's
+`updated_at` would be written although the user switched the automatic time stamps off (the model's
+`step` does exactly that for such an outcome, see the `example` below).  The source has no such path,
+in any member of any class; every theorem about histories below rests on this fact. -/
+
+def noUnguardedOk : Bool :=
+  members.all fun mb => mb.outcomes.all fun o => o.touch != .always
+
+theorem C19_no_unguarded_stamp : Nix.Stamps.Lemmas.NoUnguarded := by
+  have hall : noUnguardedOk = true := by decide +kernel
+  intro mb hmb o ho
+  have h1 := (List.all_eq_true.mp hall) mb hmb
+  have h2 := (List.all_eq_true.mp h1) o ho
+  simpa using h2
+
+/-- what the model does with an unguarded path, had the source one: the call writes the entity's
+`updated_at` whatever the switch says (the hypotheses cannot be met by the table as it is - that is
+`C19_no_unguarded_stamp` - so this describes the model, and says why the fact above is needed: an edit
+of the source that adds such a path makes the model follow it and breaks `C19_no_unguarded_stamp`) -/
+theorem C19_unguarded_would_stamp (s : State) (e : Nat) (ent : Ent) (via : Option Cls) (m : Mem)
+    (mb : Member) (o : Outcome) (v : Str) (hal : aliveAt s e = some ent)
+    (hres : resolve (via.getD ent.kind.cls) m = some mb)
+    (hk : mb.kind = .setter ∨ mb.kind = .method) (ho : o ∈ mb.outcomes) (ht : o.touch = .always)
+    (hv : timeToStr s.clock = .ok v) :
+    (step s (.call e via m o)).1.ents = setUpdated s.ents e v := by
+  have hc : mb.outcomes.contains o = true := List.contains_iff_mem.mpr ho
+  cases via <;> simp only [Option.getD] at hres <;>
+    rcases hk with hk | hk <;> simp only [step, hal, hres, hk, hc, ht, hv] <;> cases s.auto <;> simp
+
 /-! ## creation time is fixed -/
 
 /-- over any history, the stored creation time of an existing entity is unchanged unless the
@@ -109,7 +142,7 @@ theorem C19_created_fixed (ops : List Op) : ∀ (s : State) (j : Nat) (e : Ent),
   | nil => intro s j e h _; exact ⟨e, h, rfl⟩
   | cons op ops ih =>
     intro s j e h hops
-    obtain ⟨e1, h1, hstep⟩ := step_ent s op j e h
+    obtain ⟨e1, h1, hstep⟩ := step_ent C19_no_unguarded_stamp s op j e h
     have hc : e1.created = e.created := by
       cases hstep with
       | same => rfl
@@ -171,7 +204,7 @@ theorem inv_step (s : State) (op : Op) (hinv : Inv s)
   rcases Nat.lt_or_ge j s.ents.length with hlt | hge
   · have hsome : ∃ e, s.ents[j]? = some e := ⟨s.ents[j], by simp [hlt]⟩
     obtain ⟨e, he⟩ := hsome
-    obtain ⟨e1, h1, hstep⟩ := step_ent s op j e he
+    obtain ⟨e1, h1, hstep⟩ := step_ent C19_no_unguarded_stamp s op j e he
     rw [h1] at hj
     cases hj
     cases hstep with
@@ -214,7 +247,7 @@ theorem C19_monotone (ops : List Op) : ∀ (s : State), Inv s → Admissible s o
     intro s hinv hadm j e u h hu
     obtain ⟨hf, hclk, hrest⟩ := hadm
     have hinv' := inv_step s op hinv hclk hf
-    obtain ⟨e1, h1, hstep⟩ := step_ent s op j e h
+    obtain ⟨e1, h1, hstep⟩ := step_ent C19_no_unguarded_stamp s op j e h
     have hmid : ∃ u1, readStamp e1.updated = .ok (some u1) ∧ u ≤ u1 := by
       cases hstep with
       | same => exact ⟨u, hu, Int.le_refl _⟩
@@ -283,7 +316,7 @@ theorem C19_auto_off (ops : List Op) : ∀ (s : State), s.auto = false →
         | true => exact absurd rfl hnr
         | false => rfl
       | _ => exact hoff
-    obtain ⟨e1, h1, hstep⟩ := step_ent s op j e h
+    obtain ⟨e1, h1, hstep⟩ := step_ent C19_no_unguarded_stamp s op j e h
     have hsame : e1.created = e.created ∧ e1.updated = e.updated := by
       cases hstep with
       | same => exact ⟨rfl, rfl⟩
@@ -456,7 +489,7 @@ stored time stamp of an entity other than the one it is directed at -/
 theorem C19_only_target (s : State) (op : Op) (j : Nat) (e : Ent) (h : s.ents[j]? = some e)
     (hne : Op.target s op ≠ some j) :
     ∃ e', (step s op).1.ents[j]? = some e' ∧ e'.created = e.created ∧ e'.updated = e.updated := by
-  obtain ⟨e1, h1, hstep⟩ := step_ent s op j e h
+  obtain ⟨e1, h1, hstep⟩ := step_ent C19_no_unguarded_stamp s op j e h
   refine ⟨e1, h1, ?_⟩
   cases hstep with
   | same => exact ⟨rfl, rfl⟩
@@ -727,7 +760,7 @@ theorem C19_force_only_own_stamp (s : State) (e : Nat) (t : TimeArg) (j : Nat) (
     (∃ x', (step s (.forceCreated e t)).1.ents[j]? = some x' ∧ x'.updated = x.updated) ∧
     (∃ x', (step s (.forceUpdated e t)).1.ents[j]? = some x' ∧ x'.created = x.created) := by
   constructor
-  · obtain ⟨x', h', hs⟩ := step_ent s (.forceCreated e t) j x h
+  · obtain ⟨x', h', hs⟩ := step_ent C19_no_unguarded_stamp s (.forceCreated e t) j x h
     refine ⟨x', h', ?_⟩
     cases hs with
     | same => rfl
@@ -735,7 +768,7 @@ theorem C19_force_only_own_stamp (s : State) (e : Nat) (t : TimeArg) (j : Nat) (
     | touched v _ hc _ _ => simp [Lemmas.Op.isCall] at hc
     | forcedU t' v hop _ => cases hop
     | forcedC t' v _ _ => rfl
-  · obtain ⟨x', h', hs⟩ := step_ent s (.forceUpdated e t) j x h
+  · obtain ⟨x', h', hs⟩ := step_ent C19_no_unguarded_stamp s (.forceUpdated e t) j x h
     refine ⟨x', h', ?_⟩
     cases hs with
     | same => rfl
